@@ -13,6 +13,7 @@ import (
 	"runtime/debug"
 	"sort"
 	"strings"
+	"sync/atomic"
 	"time"
 
 	"github.com/la5nta/wl2k-go/fbb"
@@ -229,7 +230,15 @@ type Result struct {
 	Returned bool
 }
 
+var gzipNow atomic.Bool
+
+// setGzip switches GZIP_EXPERIMENT only when the value changes, so that runs which never enable
+// it perform no environment writes at all (and may run concurrently in one process).
 func setGzip(on bool) {
+	if gzipNow.Load() == on {
+		return
+	}
+	gzipNow.Store(on)
 	if on {
 		os.Setenv("GZIP_EXPERIMENT", "1")
 	} else {
